@@ -938,7 +938,10 @@ def run(ctx):
     # the time coverage that find() compares comes out of the names: the writer / reader chain of C02 is run here too (shared rules, their own ids)
     from .C02 import fill_evaluated, trip_evaluated, helpers_evaluated, rule_table, rule_year2, rule_doy_subsec, rule_endfill
     helpers_evaluated(ctx, "C01.helpers")
-    trip_evaluated(ctx, "C01.trip", (rule_table, (ctx,), ("C02.table",)), (rule_year2, (ctx,), ("C02.year2",)), (rule_doy_subsec, (ctx,), ("C02.doy", "C02.subsec")))
+    if not trip_evaluated(ctx, "C01.trip", (rule_table, (ctx,), ("C02.table",)), (rule_year2, (ctx,), ("C02.year2",)), (rule_doy_subsec, (ctx,), ("C02.doy", "C02.subsec"))):
+        # the round trip could not be evaluated on this (restructured) tree: the structural rule about the completion of end times looks at
+        # _retrieve_time_coverage instead, so that the function is examined either way
+        ctx.attempt(rule_endfill, ctx)
     fill_evaluated(ctx, "C01.fill", (rule_anchor, (ctx, "C01.anchor"), ("C01.anchor",)))
     from ..early import rule_early_table
     rule_early_table(ctx, "C01.answer", [
